@@ -318,10 +318,13 @@ class Built:
             return contains(self.term(c[1]), self.term(c[2]))
         if k == 'truth':
             return self.term(c[1])
-        if k == 'pred':
-            return self.fn_preds[c[1]](*[self.term(t) for t in c[2:]])
-        if k == 'predc':
-            return self.cls_preds[c[1]](*[self.term(t) for t in c[2:]])
+        if k in ('pred', 'predc'):
+            fn = (self.fn_preds if k == 'pred' else self.cls_preds)[c[1]]
+            args = [self.term(t) for t in c[2:]]
+            if self.case.get('pred_kw') and len(args) >= 2:
+                # the same call with its LAST argument passed by keyword (lt(x.a, q=1))
+                return fn(*args[:-1], **{FN_ARGS[c[1]][-1]: args[-1]})
+            return fn(*args)
         if k == 'and':
             return and_(*[self.cond(x) for x in c[1:]])
         if k == 'or':
